@@ -84,6 +84,8 @@ def gen_vars(r, layout=None, int_frac=0.0, positive=False):
         lb, ub = gen_bounds(r, positive=positive)
         d = {"kind": kind, "name": name, "lb": lb, "ub": ub, "domain": dom()}
         d.update(kw)
+        if kind == "vector" and r.random() < 0.15:
+            d["via"] = "from_numpy"  # VectorVariable.from_numpy(name, data, ...)
         if d["domain"] == "binary" and r.random() < 0.5:
             d["lb"], d["ub"] = None, None  # else: binary declared with explicit (wider) bounds
         if d["domain"] == "integer" and r.random() < 0.12:
@@ -844,7 +846,10 @@ def gen_c13(r, int_frac=0.0, strict_frac=0.0, maxlen=None):
             if r.random() < strict_frac:
                 a["strict"] = True
             if strict_frac > 0 and r.random() < 0.08 and a["method"] in ("auto", "linprog", "highs", "highs-ds", "highs-ipm"):
-                a["kw"] = {"integrality": r.choice([0, 0, 1])}  # forwarded to linprog; says nothing about optyx's own guard
+                # forwarded to linprog; says nothing about optyx's own guard.  (Only 0 = "no column is
+                # integral": a real MIP solve makes HiGHS start worker threads inside the forked run
+                # process, whose timing the simulator does not control.)
+                a["kw"] = {"integrality": 0}
             if strict_frac > 0 and r.random() < 0.35:
                 a["same_site"] = True  # issued from one and the same line of the user's program (a loop / helper)
             if r.random() < 0.1:
@@ -986,13 +991,18 @@ def gen_c12_pool(r, deep=0):
         for i in range(len(vnames2)):
             Q[i][i] = r.choice([1.0, 2.0])
         ex["o9"] = ["*", ["quad", vec2, Q], r.choice(pl)]
+        # prices . q : a vector of Parameters against a plain vector (both operand orders)
+        pv_ = ["vexpr", [r.choice(pl) for _ in vnames]]
+        ex["op"] = ["+", (["dot", pv_, vec] if r.random() < 0.5 else ["dot", vec, pv_]), ["dot", vec, vec]]
+        ex["g5"] = ["dot", pv_, vec] if r.random() < 0.5 else ["dot", vec, pv_]
+        cons["c7"] = {"k": "s", "lhs": ["dot", ["vexpr", [r.choice(pl) for _ in vnames2]], vec2], "sense": "<=", "rhs": ["num", r.choice([4.0, 9.0])]}
         ex["g3"] = ["*", r.choice(pl), ["vsum", vec]]
         ex["g4"] = ["*", ["dot", vec2, vec2], r.choice(pl)]
         cons["c5"] = {"k": "s", "lhs": ["*", r.choice(pl), ["vsum", vec]], "sense": "<=", "rhs": ["num", r.choice([2.0, 6.0])]}
         cons["c6"] = {"k": "s", "lhs": ["*", ["lincomb", [r.choice(POS) for _ in vnames2], vec2], r.choice(pl)], "sense": ">=", "rhs": ["num", r.choice([-3.0, 0.5])]}
     sp["expr_order"] = sorted(ex)
     sp["con_order"] = sorted(cons)
-    meta = {"convex": ["o0"], "lincons": ["c0", "c2", "c3"], "linear": ["o4", "ov"] + (["o6", "o8"] if vhs else []), "linpcons": ["c1", "cv", "cd"] + (["c5", "c6"] if vhs else [])}
+    meta = {"convex": ["o0"], "lincons": ["c0", "c2", "c3"], "linear": ["o4", "ov"] + (["o6", "o8"] if vhs else []), "linpcons": ["c1", "cv", "cd"] + (["c5", "c6", "c7"] if vhs else [])}
     return sp, meta
 
 
@@ -1184,6 +1194,7 @@ def _add_bare_leaves(r, sp):
     names = S.all_element_names(sp)
     n = r.choice(names)
     sp["exprs"]["b1"] = ref_of(sp, n)
+    sp["exprs"]["ob"] = ref_of(sp, n)  # a bare variable as an OBJECTIVE (minimize(t))
     # a plain product of two variables: its gradient entries are bare Variables
     a, b = (r.sample(names, 2) + [n])[:2]
     sp["exprs"]["b2"] = ["*", ref_of(sp, a), ref_of(sp, b)]
@@ -1529,9 +1540,40 @@ def gen_c14_inplace(r, tier="quick"):
     return {"knobs": dict(DEFAULT_KNOBS), "ops": ops}
 
 
+def gen_c14_batch(r, tier="quick"):
+    """"Build the batch, then solve the batch": 2-4 models with the same names (other bounds, values,
+    domains) are ALL built and given their objective / constraints first; only then each is observed
+    and solved.  Whatever is memoised at build time (variable discovery, linearity) must belong to
+    the model it was computed for."""
+    knobs = gen_knobs(r, 0.5)
+    M = gen_any_pool(r)
+    setup = _setup_ops(r, M, 0)
+    if "ob" in M["exprs"] and r.random() < 0.5:
+        setup[0] = [r.choice(["minimize", "maximize"]), 0, "ob"]  # a bare variable as the objective
+    obs = gen_observations(r, M, 0, [], 3, methods=["auto", "auto", "linprog", "SLSQP", "trust-constr", "L-BFGS-B", "highs-ds"])
+    if not any(o[0] == "solve" for o in obs):
+        obs.append(["solve", 0, cap_iterations(r, {"method": r.choice(["auto", "SLSQP", "linprog"])})])
+    k = r.randint(2, 4)
+    specs = [M] + [mutate_spec(r, M) for _ in range(k - 1)]
+    r.shuffle(specs)
+    ops = []
+    for j, sp in enumerate(specs):
+        ops.append(["new_model", 20 + j, sp])
+        ops.extend(_retarget(o, 20 + j) for o in setup)
+        if r.random() < 0.3:
+            ops.append(["read_variables", 20 + j])
+    order = list(range(k))
+    r.shuffle(order)
+    for j in order:
+        ops.extend(_retarget(o, 20 + j) for o in obs)
+    return {"knobs": knobs, "ops": ops}
+
+
 def gen_c14(r, tier="quick"):
     if r.random() < 0.05:
         return gen_c14_inplace(r, tier)
+    if r.random() < 0.08:
+        return gen_c14_batch(r, tier)
     k = r.random()
     if k < 0.15:
         return gen_c14_churn(r, tier)
@@ -2179,8 +2221,11 @@ def gen_fault(r, kmax=40, lp=False):
     if k < 0.48:
         # a compiled callable raises when optyx itself evaluates it after the solver returned
         # (post-solve feasibility check), or at its n-th evaluation overall
-        if r.random() < 0.6:
+        if r.random() < 0.45:
             return {"site": "eval", "after_exit": r.choice([1, 1, 2, 3, 4]), "exc": exc}
+        if r.random() < 0.5:
+            # the k-th evaluation of one kind of compiled callable (value / Jacobian / Hessian)
+            return {"site": "eval", "of": r.choice(["compile_hessian", "compile_hessian", "compile_jacobian", "compile_expression"]), "k": r.choice([1, 2, 2, 3, 4]), "exc": exc}
         return {"site": "eval", "k": r.choice([1, 2, 3, 5, 8, 13, 30]), "exc": exc}
     if k < 0.6:
         # the callback raises part-way through its own evaluation (j-th line executed inside optyx code)
@@ -2731,4 +2776,40 @@ def rename_case(case, style):
 
     for op in case["ops"]:
         one(op)
+    return case
+
+
+def numpyfy_case(case, r, p=0.35):
+    """The same case with some number literals arriving as NumPy scalars (np.float64: what indexing
+    an array gives) instead of Python floats -- in particular on the LEFT of an operator, where
+    NumPy gets the first say."""
+    import copy
+
+    case = copy.deepcopy(case)
+
+    def expr(e):
+        if not isinstance(e, list) or not e:
+            return
+        if e[0] == "num" and isinstance(e[1], float) and r.random() < p:
+            e[0] = "npnum"
+            return
+        for x in e[1:]:
+            if isinstance(x, list):
+                if x and isinstance(x[0], str):
+                    expr(x)
+                else:
+                    for y in x:
+                        if isinstance(y, list) and y and isinstance(y[0], str):
+                            expr(y)
+
+    for op in case["ops"]:
+        inner = op[2] if op[0] == "with_reclimit" else op
+        if inner[0] in ("new_model", "redeclare"):
+            sp = inner[2]
+            for e in sp["exprs"].values():
+                expr(e)
+            for c in sp["cons"].values():
+                if c["k"] == "s":
+                    expr(c["lhs"])
+                    expr(c["rhs"])
     return case
